@@ -20,11 +20,15 @@ CLAIMED = {
         "the theorems are about the model; the tie to raw.py/util.py is the trace correspondence (sampled); conformant agent semantics are spec-side definitions; codec / v3 framing are C05/C06/C09-C11",
     ),
     "C02": (
-        "proof (partial): GETBULK bound = N+M*R proved over the generated expression; on the faithful model and for ANY "
-        "agent: the bulk walk yields nothing outside the roots and nothing twice, is order-independent, and with one "
-        "repetition per request IS the GETNEXT walk (fetcher equality); bulk walk traces correspond to the implementation "
-        "for sizes x truncation policies; oracle = equality with the GETNEXT walk",
-        "equality with the GETNEXT walk for repetition counts > 1 is checked by the oracle and correspondence, not proved; truncation policies keep >= 1 binding per response",
+        "proof: on the Python-faithful model: against any exchange that answers GETBULK like a conformant agent with 1..max-"
+        "repetitions repetitions shortened anywhere behind the first (all truncation policies of the model agent that keep one "
+        "repetition are proved to be such), for every repetition count >= 1 and pairwise disjoint roots in any order, the bulk walk "
+        "ends normally and yields every entry strictly below a root, database entries only (C02_bulk_complete), hence exactly the "
+        "instance set of the GETNEXT walk, each once (C02_bulk_eq_getnext); for ANY agent: nothing outside the roots, nothing "
+        "twice, order independence, and size 1 IS the GETNEXT walk; GETBULK bound = N+M*R over the generated expression; bulk walk "
+        "wire traces correspond to the implementation for sizes x truncation policies incl. responses shorter than one repetition",
+        "responses shorter than one repetition (RFC 3416 4.2.3, the fetcher's completion requests) are covered by correspondence "
+        "and the oracle, not by the theorem; conformant agent semantics are spec-side definitions",
     ),
     "C03": (
         "proof: on the Python-faithful model, for an ARBITRARY exchange function and pairwise disjoint roots: the "
